@@ -17,6 +17,7 @@ from oslo_utils import encodeutils
 from oslo_utils import timeutils
 import webob
 
+from placement import db_api
 from placement import errors
 from placement import exception
 from placement import microversion
@@ -191,15 +192,17 @@ def list_traits_for_resource_provider(req):
     # NotFound we'll get a 404 here, which needs to happen because
     # get_all_by_resource_provider can return an empty list.
     # It is also needed for the generation, used in the outgoing
-    # representation.
-    try:
-        rp = rp_obj.ResourceProvider.get_by_uuid(context, uuid)
-    except exception.NotFound as exc:
-        raise webob.exc.HTTPNotFound(
-            "No resource provider with uuid %(uuid)s found: %(error)s" %
-            {'uuid': uuid, 'error': exc})
+    # representation. Both are read in one transaction, so that the
+    # generation belongs to the traits reported with it.
+    with db_api.placement_context_manager.reader.using(context):
+        try:
+            rp = rp_obj.ResourceProvider.get_by_uuid(context, uuid)
+        except exception.NotFound as exc:
+            raise webob.exc.HTTPNotFound(
+                "No resource provider with uuid %(uuid)s found: %(error)s" %
+                {'uuid': uuid, 'error': exc})
 
-    traits = trait_obj.get_all_by_resource_provider(context, rp)
+        traits = trait_obj.get_all_by_resource_provider(context, rp)
     response_body, last_modified = _serialize_traits(traits, want_version)
     response_body["resource_provider_generation"] = rp.generation
 
